@@ -31,10 +31,18 @@ def applyToggle (p : Pipeline String) (t : String × Nat × String × Bool × St
   let (g, i, n, e, r) := t
   if r == "attr" then setIdx p g i (withEnabled e) else setKey p g n (withEnabled e)
 
+/-- an argument dictionary replaced through its key: `[group, name, new arguments]` -/
+def decArgset (j : Json) : R (String × String × String) := do
+  match j with
+  | .arr #[g, n, a] => .ok (← asStr g, ← asStr n, ← asStr a)
+  | _ => .error "argset: expected [group, name, args]"
+
 def handle (j : Json) : R Json := do
   let p0 ← asList decGroup (← fld j "groups")
   let ts ← asList decToggle (fldD j "toggles" (Json.arr #[]))
-  let p := ts.foldl applyToggle p0
+  let as ← asList decArgset (fldD j "argsets" (Json.arr #[]))
+  let p1 := ts.foldl applyToggle p0
+  let p := as.foldl (fun q a => setKey q a.1 a.2.1 (withArgs a.2.2)) p1
   let n ← asNat (← fld j "steps")
   let dbg ← asBool (fldD j "debug" (Json.bool false))
   .ok (obj [("model", ofList encCall (runExposure PyxelModel.Generated.C01.modelGroups p n dbg)),
